@@ -558,7 +558,18 @@ func twkbExec(c Case) Event {
 		add := func(lo, hi float64, pr int) {
 			s := math.Pow10(pr)
 			a, b := math.Round(lo*s), math.Round(hi*s)
-			hb = append(hb, int(a), int(b-a))
+			// the generator keeps every scaled value below 2^24; anything a reader reports beyond 2^30
+			// is clamped so that it still crosses the TLC boundary (and is judged a mismatch there)
+			cl := func(v float64) int {
+				if !(v < 1<<30) {
+					return 1 << 30
+				}
+				if !(v > -(1 << 30)) {
+					return -(1 << 30)
+				}
+				return int(v)
+			}
+			hb = append(hb, cl(a), cl(b-a))
 		}
 		if mn, mx, ok := env.XYEnvelope.MinMaxXYs(); ok {
 			add(mn.X, mx.X, p)
